@@ -480,4 +480,33 @@ def check_C15(pid, tier, seed, verdict):
                  "empty datagrams are outside the statement and not sent"]
 
 
-CHECKS = {"C15": check_C15, "C06": check_C06, "C17": check_C17, "C16": check_C16, "C07": check_C07, "C12": check_C12, "C13": check_C13, "C10": check_C10, "C14": check_C14, "C09": check_C09, "C11": check_C11, "C01": check_C01, "C02": check_C02, "C03": check_C03, "C04": check_C04, "C05": check_C05}
+# ------------------------------------------------------------------------------------------- C18
+def check_C18(pid, tier, seed, verdict):
+    thorough = tier == "thorough"
+    g = V.run_gen(pid, "MC_CertReload.tla", "MC_CertReload.cfg")
+    mcs = [g]
+    withr = [s for s in g["scenarios"] if sum(1 for x in s["steps"] if x["a"] == "reload") >= 1]
+    rest = [s for s in g["scenarios"] if s not in withr] if thorough else []
+    scs = V.sample(withr, None if thorough else 700, seed) + V.sample([s for s in g["scenarios"] if all(x["a"] != "reload" for x in s["steps"])], 2000 if thorough else 60, seed)
+    sp = os.path.join(V.workdir(pid), "gen.scn")
+    V.write_scenarios(sp, scs)
+    run = V.run_harness(pid, "cert", seed, tier, sp)
+    res = V.run_trace(pid, "Trace_CertReload.tla", "Trace_CertReload.cfg", run["trace"])
+    verdict.add_trace_result("cert", res, run)
+    cnt = res["cnt"]
+    V.log(f"[{pid}] trace: {cnt['scn']} histories, {cnt['write']} file replacements, {cnt['reload']} reloads, {cnt['obs']} observations "
+          f"(handshake + info + counters + old session), bad={len(res['bad'])}")
+    cov = _cov(mcs, cnt["scn"], cnt["nontrivial"],
+               "scenario = one TLC-enumerated history of 4 steps over {replace the certificate file, replace the key file} x "
+               "{pair A, pair B, expired C, truncated A/B, garbage, missing} and reload (28561 histories; quick replays 700 of "
+               "those that contain a reload plus 60 others), executed on a real CertReloader with real files; after EVERY step a "
+               "fresh in-memory TLS handshake against get_acceptor() with a client that verifies the handshake signature, "
+               "get_cert_info / get_reload_count / get_last_reload, and a ping over a TLS session established at the start; "
+               "non-trivial = histories in which at least one reload was judged", V.sample_descrs(run["descr"]), True,
+               dict(behaviours_generated=len(g["scenarios"]), behaviours_replayed=len(scs), trace_events=res["lines"], event_counts=cnt))
+    return cov, ["truncation is concretised at 5 classes of cut positions (header line, early, middle, last byte before END, "
+                 "inside the END line), not at every prefix length", "the file watcher (notify) and its debounce are not exercised: "
+                 "reload() is called directly", "rustls and aws-lc-rs are trusted for signature verification"]
+
+
+CHECKS = {"C18": check_C18, "C15": check_C15, "C06": check_C06, "C17": check_C17, "C16": check_C16, "C07": check_C07, "C12": check_C12, "C13": check_C13, "C10": check_C10, "C14": check_C14, "C09": check_C09, "C11": check_C11, "C01": check_C01, "C02": check_C02, "C03": check_C03, "C04": check_C04, "C05": check_C05}
